@@ -5,5 +5,6 @@ CONSTANTS
   GenFaults = {"ok", "exception", "trunc", "dotdot", "samepath"}
   ByeFaults = {"ok", "noreply"}
   NamesGoodbyeFailure = FALSE
+  DetachesStdout = TRUE
 INVARIANTS GenerateOnlyAfterGoodHandshake ExactlyOneGoodbye GoodbyeIsLast AllClosedAllReaped ExitCodeIffFailure FailureNamesPlugin OnlyFailingPluginsNamed WriteOnlyOnSuccess ProtocolAutomaton SentIsScriptDetermined NeverStuck
 CHECK_DEADLOCK FALSE
